@@ -137,6 +137,29 @@ def run(ctx) -> None:
                       "wakes": rng.choice([[A], [A, A], [A, B, A], [A, B, A, B, A]]), "awake": [C]}
             outcome = arun(run_schedule(config, [], rng))
             judge(ctx, config, outcome.choices, outcome, "random")
+        # scale: the race with 1 100 - 3 000 commands parked (tables that reorganise themselves when they grow: pruning,
+        # rehashing, spilling); a sender parks / replaces a command after the first k writes of the flush, all other
+        # writes complete in order, then the node wakes twice more
+        mass = [[A, c, t] for t in range(2, 1400) for c in range(4)]
+        # sizes around the round numbers people pick for thresholds (a table that reorganises itself "at 1024 entries"
+        # does so only when a send finds exactly that many): n-1, n, n+1 for powers of two and decimal round numbers
+        rounds = [16, 32, 64, 100, 128, 200, 250, 256, 500, 512, 1000, 1024, 2000, 2048, 4096, 5000]
+        sizes = sorted({n + d for n in rounds for d in (-1, 0, 1)})
+        if ctx.quick:
+            sizes = [n for n in sizes if n <= 2049]
+        sends = [[A, 0, 9000, True], [A, 1, 2, True], [B, 0, 2, True]]
+        index = 0
+        for size in sizes:
+            for prefix in ([1], [0, 1]):
+                index += 1
+                if not ctx.mine(index):
+                    continue
+                config = {"version": ("2.0", "2.2", "2.1")[index % 3], "parked": mass[:size],
+                          "senders": [[sends[index % 3]]], "wakes": [A, A, B, A], "awake": [C], "max_steps": size * 3 + 100}
+                outcome = arun(run_schedule(config, prefix))
+                ctx.clause("mass-race")
+                ctx.obs(f"mass-race-parked:{size}")
+                judge(ctx, config, outcome.choices, outcome, "mass")
     reach.into(ctx)
     ctx.obs("distinct-final-outcomes", len(ctx.distinct_outcomes))
     ctx.require("schedule-judged", 100)
